@@ -10,6 +10,21 @@ RULE = ("TLC enumerates 49 directories (empty, one file, three files; names with
 ASSUMPTIONS = ["the NUL-separated list output is the reference table", "JSON rows are compared as multisets of values (keys are sorted by the writer)"]
 
 
+def mech(tier, seed):
+    # the writer protocol of the four result paths (H, rows with one separator between neighbours, F), model-checked
+    return [dict(module="Pipeline", cfg="Pipeline_q", workers=4, actions=["Header", "Offer", "Plan", "WriteRow", "Footer"])]
+
+
+def _pipeline_conformance(ctx, tier, seed):
+    from driver import pipeline_conf
+    return pipeline_conf.run(ctx, tier, seed, 'MC_C09', None, 400)
+
+
+def conformance(tier, seed):
+    # white-box: the writer / accept events of real runs of these scenarios are replayed through Pipeline.tla
+    return [dict(name="Pipeline", run=_pipeline_conformance)]
+
+
 def generators(tier, seed):
     return [dict(module="MC_C09", workers=4)]
 
